@@ -63,9 +63,11 @@ CostBoundsJ(sym, sl) ==
                      ELSE <<Max(0, 3 - sl), 4 + sl>>                 \* logp = 2: 8*log2(4/3) = 3.3
     [] OTHER -> <<0, 0>>
 CostBounds(sym) == CostBoundsJ(sym, CostSlack)
-\* a PVQ codeword costs pulses2bits(q) = log2_frac(V(N,K), 3), an upper bound of 8*log2(V), up to the estimate's error
-PvqCostLo(nom) == nom - 3
-PvqCostHi(nom) == nom + 1
+\* a PVQ codeword costs pulses2bits(q) = log2_frac(V(N,K), 3), an upper bound of 8*log2(V), up to the estimate's error.
+\* Measured over the thorough corpus: cost - pulses2bits(q) in -1..+1; theta symbols: 0..2 above floor(ft)-ceil(fs) and
+\* 0..2 below ceil(ft)-floor(fs) (fl > 0).  The bounds below leave 2 units beyond the measured extremes on either side.
+PvqCostLo(nom) == nom - 4
+PvqCostHi(nom) == nom + 3
 
 (***************************************************************************)
 (* the three codes of theta (compute_theta)                                *)
@@ -106,17 +108,18 @@ SymFor(mode, qn, x) ==
 SplitEntry(mode, qn, x, cost) ==
   LET sym == SymFor(mode, qn, x) IN <<1, 0, cost, sym[1], sym[2], sym[3], sym[4], 0, 0>>
 LeafEntry(cm, cost) == <<7, 0, 0, 0, 0, 0, 1, 0, cm, cost>>
-XSel(mode, qn) ==
-  IF mode = "none" THEN {0} ELSE IF mode = "inv" THEN {0, 1} ELSE {0, 1, qn \div 2, qn \div 2 + 1, qn - 1, qn}
+XSel(mode, qn, xpts) ==
+  IF mode = "none" THEN {0} ELSE IF mode = "inv" THEN {0, 1}
+  ELSE IF xpts <= 3 THEN {0, qn \div 2, qn} ELSE {0, 1, qn \div 2, qn \div 2 + 1, qn - 1, qn}
 CostSel(lo, hi, pts) == IF pts = 1 \/ lo >= hi THEN {hi} ELSE IF pts = 2 THEN {lo, hi} ELSE {lo, (lo + hi) \div 2, hi}
-CmSel(B) == IF B <= 1 THEN {1} ELSE {1, Pow2(B - 1), Pow2(B) - 1}
+CmSel(B, cmpts) == IF B <= 1 THEN {1} ELSE IF cmpts <= 1 THEN {Pow2(B) - 1} ELSE {1, Pow2(B - 1), Pow2(B) - 1}
 PvqLoJ(nom, jit) == Max(0, nom - 1 - jit)
 MenuOf(f, need) ==
   IF need.k = "split"
   THEN UNION {{SplitEntry(need.mode, need.qn, x, c) :
                  c \in LET bd == CostBoundsJ(SymFor(need.mode, need.qn, x), f.jit) IN CostSel(bd[1], bd[2], f.pts)} :
-              x \in XSel(need.mode, need.qn)}
-  ELSE {LeafEntry(cm, c) : cm \in CmSel(need.B), c \in CostSel(PvqLoJ(need.nom, f.jit), need.nom + f.jit, f.pts)}
+              x \in XSel(need.mode, need.qn, f.xpts)}
+  ELSE {LeafEntry(cm, c) : cm \in CmSel(need.B, f.cmpts), c \in CostSel(PvqLoJ(need.nom, f.jit), need.nom + f.jit, f.pts)}
 PolCost(pol, lo, hi, k) ==
   IF lo >= hi THEN hi ELSE IF pol \in {0, 1} THEN hi ELSE IF pol = 2 THEN lo ELSE lo + ((5 * k) % (hi - lo + 1))
 PolicySplit(f, mode, qn, k) ==
